@@ -83,8 +83,8 @@ func (rc *CRespCodec) Decode(c CConn) (*Msg, error) {
 	resp.Id = msgId
 	resp.Owner = c
 	resp.Type = codec.Transform2Type(msg, n)
-	resp.Body = make(map[int32]*Frag, n)
-	resp.Fd2Slot = make(map[int]int32, n)
+	resp.Body = make(map[int32]*Frag, mapHint(n))
+	resp.Fd2Slot = make(map[int]int32, mapHint(n))
 
 	switch resp.Type {
 	case codec.ReqMget:
@@ -123,7 +123,7 @@ func (rc *CRespCodec) Decode(c CConn) (*Msg, error) {
 }
 
 func (rc *CRespCodec) Frag1(c CConn, n int, resp *Msg, buf *codec.Buffer) error {
-	resp.Frags = make(map[int32][]string, n)
+	resp.Frags = make(map[int32][]string, mapHint(n))
 	for i := 0; i < n; i++ {
 		msg, err := rc.parseLine(buf)
 		if err != nil {
@@ -145,7 +145,7 @@ func (rc *CRespCodec) Frag1(c CConn, n int, resp *Msg, buf *codec.Buffer) error 
 }
 
 func (rc *CRespCodec) Frag2(c CConn, n int, resp *Msg, buf *codec.Buffer) error {
-	resp.Frags2 = make(map[int32][][2]string, n/2)
+	resp.Frags2 = make(map[int32][][2]string, mapHint(n/2))
 	for i := 0; i < n; i = i + 2 {
 		msg, err := rc.parseLine(buf)
 		if err != nil {
@@ -319,6 +319,15 @@ func (rc *CRespCodec) parseLine(buf *codec.Buffer) ([]byte, error) {
 	default:
 		return nil, codec.ErrInvalidResp
 	}
+}
+
+// mapHint bounds the initial size of the per-request maps: the argument count comes from the client and
+// the maps are allocated on every decode attempt, also while the request is still incomplete.
+func mapHint(n int) int {
+	if n > 64 {
+		return 64
+	}
+	return n
 }
 
 func (rc *CRespCodec) sizeTooLarge(size int) bool {
